@@ -25,12 +25,19 @@ import (
 type Env struct {
 	R       *Runner
 	Scratch string // per-case scratch directory (removed after the case)
+	// DstOtherFS asks syncSetup to put the destination on a file system other
+	// than the one that holds the scratch directory (and TMPDIR)
+	DstOtherFS bool
+	cleanup    []func()
 
 	nontrivial bool
 	classes    []string
 	known      []string
 	note       map[string]any
 }
+
+// Defer registers fn to run when the case is over.
+func (e *Env) Defer(fn func()) { e.cleanup = append(e.cleanup, fn) }
 
 // Class records that the case belongs to a named class (histogram in evidence).
 func (e *Env) Class(name string) { e.classes = append(e.classes, name) }
@@ -199,6 +206,9 @@ func exec1[C any](r *Runner, c *C, check func(*Env, *C) error) (err error) {
 	}
 	env := &Env{R: r, Scratch: dir}
 	defer func() {
+		for _, fn := range env.cleanup {
+			fn()
+		}
 		RemoveAllForce(dir)
 	}()
 	func() {
